@@ -11,6 +11,38 @@ from checks.v1common import validate
 PID = "C09"
 def classify(ev):
     return "seq-equivalence" if ev.get("ev") == "match" else ev.get("ev", "?"), {k: ev[k] for k in ev if k not in ("lines",)}
+def backend_legs(v, acc, th):
+    """The result list of the identify_license backend (V2Backend): one lock for all tasks of the backend -- a lock per run must violate
+    NoRace and lose entries; then overlapping runs on one real backend, plain (entries counted) and under the race detector."""
+    r = tlc_require_ok(tlc("V2Backend", "V2Backend.cfg", timeout=900), "V2Backend"); acc.add_tlc(r, "V2Backend.cfg")
+    for cfg, inv in (("V2BackendPerRun.cfg", "NoRace"), ("V2BackendPerRunLost.cfg", "AllAppended")):
+        nv = tlc("V2Backend", cfg, timeout=600)
+        if nv.violated != inv:
+            raise vlib.Inconclusive("%s did not violate %s: %s" % (cfg, inv, nv.tail[-1500:]))
+        acc.tlc.append({"cfg": cfg, "expected_violation": inv})
+    for race in (False, True):
+        out = os.path.join(sub("out"), "backend_overlap.%s.ndjson" % race)
+        if os.path.exists(out):
+            os.remove(out)
+        rc, txt, _ = go_overlay_test("v2/tools/identify_license/backend", ["common/util_test.go", "backend/cli_driver_test.go", "backend/overlap_driver_test.go"], "^TestVerifBackendOverlap$",
+                                     env={"VERIF_OUT": out, "VERIF_ROUNDS": "8" if th else "3"}, race=race, timeout=1800)
+        if vlib.build_failed(txt):
+            raise vlib.Inconclusive("backend overlap driver did not build:\n" + txt[-3000:])
+        n = txt.count("WARNING: DATA RACE") if race else 0
+        if n:
+            m = re.search(r"WARNING: DATA RACE\n(.*?)\n\n", txt, re.S)
+            v.fail("race-detector:backend-results", {"reports": n, "first": (m.group(1) if m else txt)[:3000]})
+            continue
+        recs = read_ndjson(out)
+        summ = [x for x in recs if x.get("kind") == "summary"]
+        if rc != 0 or not summ:
+            raise vlib.Inconclusive("backend overlap driver failed:\n" + txt[-3000:])
+        acc.evaluations += summ[0]["rounds"]; acc.extra["backend_overlap_race" if race else "backend_overlap"] = summ[0]
+        for x in recs:
+            if x.get("kind") == "mismatch":
+                v.fail("backend-results", x)
+
+
 def run():
     t0 = time.time(); v = vlib.Verdict(PID); acc = Acc(); th = vlib.TIER == "thorough"
     r = tlc_require_ok(tlc("V2Concurrent", "V2ConcurrentFixed.cfg", timeout=600), "V2ConcurrentFixed"); acc.add_tlc(r, "V2ConcurrentFixed.cfg")
@@ -53,6 +85,8 @@ def run():
         for x in recs:
             if x.get("ev") == "fault":
                 v.fail("failing-reader", x)
+            if x.get("ev") == "argfault":       # a call wrote to its caller's memory (the input, the capacity behind it, a neighbouring input)
+                v.fail("caller-bytes", x)
         lines = [x for x in recs if x.get("ev") in ("new", "add", "match", "reset")]
         ctext = "SPECIFICATION TSpec\nCONSTANTS\n" + "".join("  %s = FALSE\n" % d for d in DEV_CONSTANTS) + "POSTCONDITION TraceAccepted\nCHECK_DEADLOCK FALSE\n"
         validate(v, acc, "TraceV2", "TraceV2.cfg", ctext, "trace_v2.ndjson", lines, classify, "concurrent results vs sequential results")
@@ -61,6 +95,7 @@ def run():
         acc.nontrivial = len({x["memo"] for x in lines if x.get("ev") == "match" and x["ms"]})
         acc.samples += [{k: x[k] for k in ("memo", "api", "ms")} for x in lines if x.get("ev") == "match"][:2]
     acc.extra["diffcalls"] = shared
+    backend_legs(v, acc, th)
     rc = v.finish()
     vlib.write_evidence(PID, acc.coverage("8 (64) goroutines x 2 (6) rounds over 15 inputs (BSD-3/BSD-2/Apache/MIT/GPL texts, exact, edited, in context) on one default-corpus classifier, Match and MatchFrom mixed, every fourth call preceded by a MatchFrom whose reader fails; every concurrent result must equal the sequential one bit for bit; distinct = inputs with a non-empty result"),
         ["writes inside go-diff are visible only through the race detector; the model contributes the ownership rule and the inputs/schedule that make the observation reliable",
